@@ -25,6 +25,14 @@ def run(rep, tier, seed):
                     if K and order and quick:
                         continue
                     drive.run_op(rep, ocf.ZOcfHarness(N, M, K, ext, order=order, mode="query"))
+        # facts given as strings in project syntax (parsed by the repository): negation binds
+        # tighter than ',' which binds tighter than ';'
+        S = lambda n: ["sym", n]
+        NOT = lambda t: ["not", t]
+        strs = [("!a0,a1", ["and", NOT(S("a0")), S("a1")]), ("!a0;a1", ["or", NOT(S("a0")), S("a1")]),
+                ("!(a0;a1)", NOT(["or", S("a0"), S("a1")])), ("a1", S("a1")), ("!a1", NOT(S("a1"))), ("!a0,!a1", ["and", NOT(S("a0")), NOT(S("a1"))])]
+        for fs in ([[strs[0]], [strs[1]], [strs[2], strs[3]]] if quick else [[x] for x in strs] + [[strs[0], strs[4]], [strs[1], strs[5]]]):
+            drive.run_op(rep, ocf.ZOcfHarness(N, M, extended=None, order=[0], mode="ranks", fact_strings=fs))
         # facts with explicitly strict partitioning (extended=False)
         drive.run_op(rep, ocf.ZOcfHarness(N, M, 1, False, order=[0], mode="ranks"))
     rep.assumptions.append("worlds are concrete bitstrings, base / fact / query formulas symbolic tables; bounds N=2,M=2 (thorough also (2,3),(3,2)), <=2 facts, up to 3 worlds ranked lazily (forced or not) before compute_all_ranks / acceptance")
